@@ -176,6 +176,17 @@ CLAIMED = {
             "the rename guarded. Does not decide equality of evaluation results.",
             "sibling-table agreement across grammar text, AST doc tags and go/ssa provenance; shape checks of printers and refactor plumbing",
             "DESIGN.md §4 C11"),
+    "C17": ("Structural necessary conditions of meaning-preserving migration, decided on symbolic string templates computed from go/ssa: "
+            "every text the migration can emit (63 callMigrators entries through their constructor closures, parameter migrators, the "
+            "legacy visitor's formats, 48 context-reference replacements, wrapRawExpression) is tokenised as Excellent3; an operand "
+            "substituted next to an operator must be an atom, pass a verified conditional parenthesizer, or be the legacy operand of the "
+            "method's own operator; a legacy call migrated to an operator expression is returned bare only to bracketing parents; the "
+            "operator alternatives of Excellent1.g4 and Excellent3.g4 have the same precedence order and each visitor method emits the "
+            "Excellent3 literal of the token it tested; no (value, error) call has its error discarded unless the callee never fails; "
+            "hand-built text literals escape quote and backslash; body text is copied. Does not decide that renamed functions compute "
+            "the same values, nor argument order inside explicit-index templates.",
+            "abstract interpretation of string-building code (templates with holes and path guards) + grammar/table agreement + guard evidence on dominating branches",
+            "DESIGN.md §4 C17"),
 }
 
 NOT_APPLICABLE = {}
